@@ -62,6 +62,14 @@ const c17SpecB = `{"openapi":"3.0.3","info":{"title":"b","version":"1"},
  "responses":{"201":{"description":"ok","content":{"application/json":{"schema":{"$ref":"#/components/schemas/Pet"}}}}}}}},
 "components":{"schemas":{"Pet":{"type":"object","properties":{"id":{"type":"integer","format":"int64"},"tag":{"type":"string"}}}}}}`
 
+// document A with its component types renamed (x-go-name): the same $ref strings resolve to other Go names
+var c17SpecRenamed = strings.NewReplacer(`"Err":{"type":"object",`, `"Err":{"x-go-name":"BillingFault","type":"object",`,
+	`"Thing":{"type":"object",`, `"Thing":{"x-go-name":"Gizmo","type":"object",`).Replace(c17SpecA)
+
+// the renamed document with one more path whose template variable is not declared: generation fails late, after
+// the references of the earlier paths have been resolved
+var c17SpecRenamedFailsLate = strings.Replace(c17SpecRenamed, `"paths":{`, `"paths":{"/zz/{undeclared}":{"get":{"operationId":"zz","responses":{"204":{"description":"ok"}}}},`, 1)
+
 // a document on which generation fails after the prologue (two schemas normalising to one type name)
 const c17SpecDup = `{"openapi":"3.0.3","info":{"title":"d","version":"1"},"paths":{},
 "components":{"schemas":{"foo_bar":{"type":"object","properties":{"a":{"type":"string"}}},"FooBar":{"type":"object","properties":{"b":{"type":"integer"}}}}}}`
@@ -122,6 +130,8 @@ func c17Variants() []genCall {
 	add("additional-imports", c17SpecA, func(c *codegen.Configuration) {
 		c.AdditionalImports = []codegen.AdditionalImport{{Alias: "x", Package: "example.com/x"}}
 	})
+	add("same $refs, other Go names (x-go-name)", c17SpecRenamed, nil)
+	add("same $refs, other Go names, fails late", c17SpecRenamedFailsLate, nil)
 	add("duplicate type names (fails after the prologue)", c17SpecDup, func(c *codegen.Configuration) { c.ImportMapping = nil })
 	add("disable-type-aliases-for-type=array", c17SpecA, func(c *codegen.Configuration) { c.OutputOptions.DisableTypeAliasesForType = []string{"array"} })
 	return out
